@@ -256,6 +256,23 @@ CLAIMED = {
         "Not modelled: avoid_system_syncs (wall-clock dependent, inert in the runs), _track_transmit_rate.",
         "6 (C11)",
     ),
+    "C06": (
+        "Coq proof (the header function over regenerated code tables: echo and reply recognition and their converses for ALL payloads, ids and codes by symbolic case analysis; the failing classes by computed witnesses) + frame-by-frame correspondence of header/rx_header + recognition/near-miss oracle with the protocol FSM's matching rule",
+        "6 theorems in coq/props/C06.v about coq/model/M_Header.v (= pkt_header, Frame._ctx, _pkt_idx, _has_array, _has_ctl with "
+        "CODES_WITH_ARRAYS, CODE_IDX_*, CODES_ONLY_FROM_CTL, the '^00' regex table, device types and roles regenerated): for every RQ/W "
+        "frame the echo with any same-type gateway id has the same header and expects the same reply; for every request from a gateway "
+        "to any device other than a type 12/22 thermostat (and other than 1FC9, 0009-to-OTB) every proper reply -- same code, reply "
+        "verb, from the addressed device, repeating the context positions, not an array, any payload otherwise -- has exactly the "
+        "expected header; conversely whatever carries the expected (or the request's own) header has the request's code, verb, device "
+        "and context, so a packet differing in any of those is not taken for the reply/echo; the two classes where pairing fails are "
+        "refuted by witnesses (known findings). PARTIAL: the FSM's matching rule (placeholder substitution, 0418 null-entry exception) "
+        "is transcribed in the oracle, not modelled; that constructors' payloads put the context at the modelled positions is C03's "
+        "subject. Tie: ~1000 (thorough ~5000) frames of every code x verb x 3 address shapes x 14 device types: model header and "
+        "rx_header = Packet._hdr and pkt_header(rx_header=True), incl. the raising cases.",
+        "Trusted: Coq kernel, translator (tables), harness. Modelled not verified: addresses as (type, number); AssertionError inside "
+        "_has_array as 'no context' (pkt_header's except clause).",
+        "6 (C06)",
+    ),
 }
 
 NOT_YET = "not claimed yet: the Coq model and correspondence harness for this property are not built in this revision (planned in DESIGN.md section 6)"
